@@ -379,6 +379,7 @@ def run_scenario(seed, sc_no):
                 e = R.with_ttl(r, ttl)
                 e.created = float(now - age)
                 zc.cache.async_add_records([e])
+                tr.pokes.append((now, uni.id(r)))
                 actions.append(("poke", now - T0, uni.id(r), age))
             src = rng.choice(srcs)
             port = 5353 if rng.random() < 0.85 else 40000
@@ -473,11 +474,14 @@ def spec_classes(tr, b, parsed_by_data):
                 s = seen.get(rid)
                 # the code's test (`_has_mcast_record_in_last_second`) looks at the age at the last packet's arrival ...
                 age_lt_1s = s is not None and t_last - s[0] < 1000
-                # ... the property speaks of a sighting "before the query arrived": it binds when the sighting precedes the
-                # arrival of the query's first packet (for an ordinary query: always).  A sighting made while a truncated
-                # query was being held is not covered by the sentence either way -> class "free" (notes/agents/C12.md, O1)
-                in1s = age_lt_1s and s[0] <= t_first
+                # ... the property speaks of a sighting "before the query arrived".  Reading (notes/agents/C12.md, O1): a query
+                # has arrived when its last packet has (the sentence treats a truncated train as one query that is "held ... and then
+                # answered once", and the code itself classifies at the last packet's time).  So the clause binds for every
+                # sighting up to the last packet's arrival -- also one made while earlier packets of the train were being held --
+                # and does not bind for a sighting made after the last packet arrived (class "free").
+                in1s = age_lt_1s and s[0] <= t_last
                 free = age_lt_1s and not in1s
+                held_sighting = in1s and s[0] > t_first
                 quarter = s is not None and s[0] + 250 * s[1] > t_last
                 if qu and not legacy:
                     if not quarter:
@@ -494,7 +498,7 @@ def spec_classes(tr, b, parsed_by_data):
                     cls = "now"
                 else:
                     cls = "agg"
-                out.append((rid, cls, dict(seen=s, in1s=in1s, probe=probe, dontcare=dontcare, qu=qu, t_first=t_first, t_last=t_last, c=c)))
+                out.append((rid, cls, dict(seen=s, held_sighting=held_sighting, in1s=in1s, probe=probe, dontcare=dontcare, qu=qu, t_first=t_first, t_last=t_last, c=c)))
     return out
 
 
@@ -640,6 +644,17 @@ def check_trace_O(res, box, case):
                         ok = True
             if ok:
                 continue
+            held = next((info for (i, b2, classes) in asms if i < j for (r2, cls, info) in classes
+                         if r2 == rid and cls == "prot" and info["held_sighting"]
+                         and info["t_first"] + 1020 <= s <= b2["t"] + 1200 and s < info["seen"][0] + 1000), None)
+            if held is not None and d12 is None:
+                res.violate("C12:held-query-remulticast-within-1s",
+                            "%s was seen multicast at %d ms, while a truncated query (first packet %d ms, last packet %d ms) was being held; the reply to that query "
+                            "multicasts it again at %d ms, %d ms after the sighting (the protected queue is stamped with the first packet's arrival, "
+                            "the one-second test uses the last packet's)" % (
+                                tr.uni.describe(rid), held["seen"][0] - T0, held["t_first"] - T0, held["t_last"] - T0, s - T0, s - held["seen"][0]),
+                            dict(case, at_ms=s - T0))
+                continue
             if d12 is not None:
                 ttl = d12["seen"][1]
                 sig = "C12:qu-remulticast-within-1s-ttl-le-3" if ttl <= 3 else "C12:remulticast-within-1s"
@@ -704,6 +719,9 @@ def run_trace_stream(ctx, res, n, only=None):
                 res.disagree("c12run", dict(case, at_block=k, block=None if blk is None else dict(kind=blk["kind"], t=blk["t"] - T0)),
                              iobs[k] if k < len(iobs) else None, (head, mobs[k] if k < len(mobs) else None))
         na, nm = check_trace_O(res, box, case)
+        for (rid, s_, c_, e_) in R.sighting_gaps(tr)[:2]:
+            res.disagree("sightings", dict(case, at_ms=c_), "cache entry of %s at %d ms: %s" % (tr.uni.describe(rid), c_, e_),
+                         "the host multicast it at %d ms: its own transmission must have re-stamped the cache" % s_)
         kinds = sorted({b["kind"] + ("+tc" if b.get("draws_tc") else "") for b in tr.blocks if b["kind"] != "rx" or b.get("parsed")})
         res.count("tr:blocks", len(tr.blocks))
         res.count("tr:assemblies", na)
